@@ -201,8 +201,53 @@ func requirement(w *World, d *Deployed, c *CallInfo) wReq {
 			return wReq{known: true, alts: nil} // malformed holder: nothing can authorise it
 		}
 	case "container":
+		// a name that somebody else (the committee) registered in advance can be
+		// given to / taken from a container only with that owner's witness too:
+		// NNS demands it in the nested call ("the documented combination")
+		domainOwner := func(domain string) (util.Uint160, bool) {
+			nns := w.C["nns"]
+			if nns == nil || domain == "" {
+				return util.Uint160{}, false
+			}
+			it, err := w.readNoHook(nns.Hash, "ownerOf", domain)
+			if err != nil {
+				return util.Uint160{}, false
+			}
+			h, ok := argHash160(it)
+			if !ok || h == d.Hash {
+				return util.Uint160{}, false
+			}
+			return h, true
+		}
 		switch m {
-		case "put", "putNamed", "setEACL", "addNextEpochNodes", "commitContainerListUpdate", "newEpoch", "startContainerEstimation", "stopContainerEstimation", "delete":
+		case "putNamed":
+			if len(c.Args) == 6 {
+				name, _ := argBytes(c.Args[4])
+				zone, _ := argBytes(c.Args[5])
+				if len(zone) == 0 {
+					zone = []byte("container")
+				}
+				if len(name) > 0 {
+					if h, ok := domainOwner(string(name) + "." + string(zone)); ok {
+						return and(wReq{known: true, alts: [][]util.Uint160{wAlt(A)}}, h)
+					}
+				}
+			}
+			return reqA
+		case "delete":
+			if len(c.Args) == 3 {
+				if cid, ok := argBytes(c.Args[0]); ok {
+					if it, err := w.readNoHook(d.Hash, "alias", cid); err == nil {
+						if dom := ItemBytes(it); len(dom) > 0 {
+							if h, ok := domainOwner(string(dom)); ok {
+								return and(wReq{known: true, alts: [][]util.Uint160{wAlt(A)}}, h)
+							}
+						}
+					}
+				}
+			}
+			return reqA
+		case "put", "setEACL", "addNextEpochNodes", "commitContainerListUpdate", "newEpoch", "startContainerEstimation", "stopContainerEstimation":
 			return reqA
 		case "putContainerSize":
 			return keyArg(3)
